@@ -16,7 +16,8 @@ from npstructures import HashTable, Counter, HashSet  # noqa: E402
 
 
 def key_int(k, kdt="i8"):
-    return unlimbs(k, kdt) if isinstance(k, (list, tuple)) else int(k)
+    # limb tuples carry the 64-bit two's-complement pattern of the TRUE integer (a query may lie outside the key dtype)
+    return unlimbs(k, "u8" if kdt == "u8" else "i8") if isinstance(k, (list, tuple)) else int(k)
 
 
 def enc_key(k, wide):
@@ -42,8 +43,11 @@ def keys_array(ks, kdt):
 def query(ks, t, o):
     vals = [key_int(k, t.kdt) for k in ks]
     how = o.get("query", "list")
-    if how == "array" or t.wide:
-        return np.array(vals, dtype=DT2NP[t.kdt])
+    if t.kdt == "u8" and how != "list":
+        return np.array(vals, dtype=np.uint64)
+    if how == "array":
+        info = np.iinfo(DT2NP[t.kdt])
+        return np.array(vals, dtype=DT2NP[t.kdt] if all(info.min <= v <= info.max for v in vals) else np.int64)
     if how == "array64":
         return np.array(vals, dtype=np.int64)
     return vals
